@@ -14,7 +14,7 @@ Operation tokens (the harness vocabulary; `model_token` maps them to the model's
     dis | en      emd.logger.disable() | enable()
     c:<V>:<m>[:<f>]   decorated sift call; V in N (verbose=None) O (verbose omitted) C W I D;
                   m = r (returns) | x (raises: input shape (n,2,3) rejected) | y (raises: no convergence);
-                  f = s (sift, default) | m (mask_sift) | e (ensemble_sift, seeded) | c (complete_ensemble_sift, seeded)
+                  f = s (sift, default) | m (mask_sift) | a (mask_sift with array keyword arguments) | e (ensemble_sift, seeded) | c (complete_ensemble_sift, seeded)
 """
 import hashlib
 import io
@@ -84,6 +84,13 @@ def _call(tok, env):
         return emd.sift.sift(x, max_imfs=3, **kw)
     if fn == 'm':
         return emd.sift.mask_sift(x, max_imfs=2, nprocesses=1, **kw)
+    if fn == 'a':
+        # array-valued keyword arguments with many significant digits: anything the logging decorators do to the
+        # keyword arguments they print (rounding, converting, re-ordering) must not reach the sift
+        return emd.sift.mask_sift(x, max_imfs=2, nprocesses=1, mask_amp_mode='abs',
+                                  mask_freqs=np.array([0.2123456789, 0.0987654321]),
+                                  mask_amp=np.array([1.23456789, 0.87654321]),
+                                  imf_opts={'sd_thresh': 0.0512345678, 'rilling_thresh': (0.05, 0.5, 0.05)}, **kw)
     np.random.seed(4242 + env['sig'])
     if fn == 'e':
         return emd.sift.ensemble_sift(x, nensembles=2, max_imfs=2, nprocesses=1, **kw)
